@@ -146,7 +146,8 @@ impl ContinuityStore {
 
 // ---- enumeration and oracle (from the property statement) -----------------------------------------------------------------------
 const T: &str = "t";
-const CONTENTS: [&str; 3] = ["alpha beta\nTODO: gamma", "beta alpha delta", "ERROR: alpha\n- [ ] beta"];
+// the first one holds 17 distinct words with equal counts: which of them make the top-keyword cut must not depend on hash order
+const CONTENTS: [&str; 4] = ["apple banana cherry damson elder figs grape hazel ivory jasmine kiwis lemon mango nectar olive peach quince", "alpha beta\nTODO: gamma", "beta alpha delta", "ERROR: alpha\n- [ ] beta"];
 fn fresh(mode: u8) -> ContinuityStore {
     CTR.with(|c| *c.borrow_mut() = 0); BLOBS.with(|b| b.borrow_mut().clear()); SIDECAR.with(|s| s.borrow_mut().clear()); FAULT_WRITE_AT.with(|f| *f.borrow_mut() = None);
     let st = ContinuityStore { workspace_root: PathBuf::from("/ws"), event_log: EventLog { frames: RefCell::new(Vec::new()) }, stream_cache: ContinuityStreamCache { mode }, sender: Sender, next_seq: Mutex::new(HashMap::new()) };
@@ -162,7 +163,7 @@ fn build(st: &ContinuityStore, ops: &[u8]) -> Result<(), String> {
         let msgs: Vec<(u64, String)> = st.replay_events(T).unwrap().iter().filter(|e| matches!(e.kind, EventKind::ContinuityMessageAppended { .. })).map(|e| (e.seq, e.id.clone())).collect();
         let mk = |mid: Option<String>, seq: Option<u64>| CompactionCheckpointCumulativeV1Request { summary_markdown: Some("manual summary".into()), summary_artifact_id: None, to_message_id: mid, to_seq: seq, stride_messages: None, actor_id: "u".into(), origin: "o".into() };
         match *op {
-            0 => { st.append_message(T, if k % 2 == 0 { "user".into() } else { "agent".into() }, "o".into(), CONTENTS[k % 3].to_string())?; k += 1; }
+            0 => { st.append_message(T, if k % 2 == 0 { "user".into() } else { "agent".into() }, "o".into(), CONTENTS[k % 4].to_string())?; k += 1; }
             1 => { st.append_job_spawned(T, "j-other", "other_kind", None, "u".into(), "o".into())?; }
             2 => { if let Some((_, id)) = msgs.last() { st.compaction_checkpoint_cumulative_v1(T, mk(Some(id.clone()), None))?; } }
             3 => { if let Some((s, _)) = msgs.first() { st.compaction_checkpoint_cumulative_v1(T, mk(None, Some(*s)))?; } }
